@@ -346,7 +346,13 @@ def _export_jobs(jobs, path, copytree):
         _check_path_function_unique(jobs, path_spec=path, path_function=path_function)
     else:
         path_function = _make_path_function(jobs, path)
-        # path_function is checked for uniqueness inside _make_path_function
+        # String specifications are checked for uniqueness inside
+        # _make_path_function. Paths generated from the schema can collide,
+        # too (e.g. for the values 1 and '1').
+        if not isinstance(path, str):
+            _check_path_function_unique(
+                jobs, path_spec=path, path_function=path_function
+            )
 
     # Determine export path for each job.
     paths = {job.path: path_function(job) for job in jobs}
